@@ -10,8 +10,11 @@
 (*   the symbol reports carry each symbol's final value (PrintSymbolList, PrintDebSymbols,              *)
 (*   PrintNoISymbols, CodeSHARED)                                                                      *)
 (* and the declarative side says what a reader may conclude from them:                                  *)
-(*   RowFaithful    every unit shown in a row is the content of the code file at the shown address      *)
-(*   ...                                                                                               *)
+(*   RowFaithful / GroupFaithful   every unit shown in a row is the line's code at the shown address,    *)
+(*                                 the rows of a line together show all of its code                      *)
+(*   InFile                        the line's code is in a record of its segment at its load address     *)
+(*   MapEntryJustified             a line:address entry names a line whose code starts there             *)
+(*   ShareFormats                  the number syntax of a share line                                     *)
 (* Numbers that may exceed TLC's 32-bit integers (addresses, phase) are pairs <<hi, lo>>,               *)
 (* value = hi * 2^24 + lo, 0 <= lo < 2^24 (hi may be negative: phase).                                  *)
 EXTENDS Integers, Sequences, FiniteSets
@@ -112,12 +115,10 @@ InRecord(rec, e) ==
        /\ SubSeq(rec.data, d * e.gran + 1, d * e.gran + Len(e.bytes)) = e.bytes
 InFile(recs, e) == \E i \in 1..Len(recs) : InRecord(recs[i], e)
 
-\* printed number <-> file bytes: the unit's digits name Compose(bytes) in one of the two byte orders,
-\* the same order for every unit of a line
-RECURSIVE ComposeBE(_, _)
-ComposeBE(bs, k) == IF k = 0 THEN <<>> ELSE ComposeBE(bs, k - 1) \o <<bs[k]>>
+\* printed number <-> file bytes: the digits of a unit name its bytes most significant first ("shown"); the
+\* file holds them in that order (big endian) or reversed (little endian) - one order for all units of a line
+\* (Listing_Trace: Order / Agree)
 Reverse(bs) == [i \in 1..Len(bs) |-> bs[Len(bs) + 1 - i]]
-\* shown = bytes of the printed number, most significant first
 ShownMatches(shown, filebytes, big) == IF big THEN shown = filebytes ELSE shown = Reverse(filebytes)
 
 ------------------------------------------------------------------------------------------------------
